@@ -95,6 +95,13 @@ class World:
         }
         if cfg:
             self.cfg.update(cfg)
+        # granularity of the simulated file times, in events: 1 = every change visible in
+        # the timestamps; larger = changes within one tick share a timestamp (file systems
+        # stamp with 1 ms .. 2 s resolution, NFS caches attributes); "tape" = seeded per run
+        g = self.cfg.get("mtime_granularity", 1)
+        if g == "tape":
+            g = tape.weighted([(1, 3), (40, 1), (10 ** 9, 1)], "mtime-granularity")
+        self.mtime_gran = int(g)
         self.clock = 0.0
         self.actors = []
         self.by_thread = {}
@@ -238,7 +245,7 @@ class World:
         """(end of op(): the operation is now certain to be performed)"""
         from . import interpose
 
-        ns = self.SIM_EPOCH_NS + self.steps * 1000
+        ns = self.SIM_EPOCH_NS + (self.steps // self.mtime_gran) * self.mtime_gran * 1000
         mt = self.mtimes
         parent = os.path.dirname(path) if isinstance(path, str) else None
         if kind in ("open-w", "open-a", "open-x"):
